@@ -53,7 +53,7 @@ def blocks(tier, seed):
         out.append({"cls": cls, "mode": "mutation", "n": {"2d": 4, "3d": 8, "axisym": 3}[cls], "tier": tier})
     big = (("2d", 8), ("3d", 24), ("axisym", 4)) if tier != "thorough" else (("2d", 8), ("2d", 12), ("3d", 24), ("3d", 35), ("axisym", 4), ("axisym", 6))
     for cls, n in big:
-        for R in RADII:
+        for R in (RADII + [1e-3, 2e2] if tier == "thorough" else RADII):  # thorough: absolute scales far from 1
             for ci, centre in enumerate(("origin", "generic")):
                 out.append({"cls": cls, "n": n, "R": R, "centre": centre, "tier": tier, "mode": "first-order"})
         blk = {"cls": cls, "n": n if cls != "3d" else 8, "R": [1.0, 0.5, 3.0][seed % 3], "centre": "generic", "tier": tier, "mode": "integral"}
